@@ -410,6 +410,7 @@ func (s *seq) step(r *rand.Rand) {
 		if target.relative {
 			op = "gogit-op[relative-gitdir]"
 		}
+		_, privErr := os.Stat(filepath.Join(s.gitdir(target), "packed-refs"))
 		repo, closeFn, err := s.openRepo(target)
 		if err != nil {
 			s.fail(op+":gogit-cannot-open", fmt.Sprintf("go-git cannot open worktree %s: %v", target.dir, err))
@@ -427,7 +428,7 @@ func (s *seq) step(r *rand.Rand) {
 			if gr := s.g.Run(s.main, "rev-parse", "-q", "--verify", "refs/heads/"+br); gr.OK() {
 				s.fail(op+":removed-packed-ref-still-visible-from-main", fmt.Sprintf("RemoveReference(refs/heads/%s) through linked worktree %s returned nil, but git in the main worktree still resolves the branch (%s)", br, target.name, strings.TrimSpace(string(gr.Out))))
 			}
-			if _, err := os.Stat(filepath.Join(s.gitdir(target), "packed-refs")); err == nil && !target.main {
+			if _, err := os.Stat(filepath.Join(s.gitdir(target), "packed-refs")); err == nil && privErr != nil && !target.main {
 				s.fail(op+":private-packed-refs-written", fmt.Sprintf("RemoveReference through linked worktree %s wrote %s/packed-refs (packed-refs belongs to the common directory)", target.name, s.gitdir(target)))
 			}
 		}
